@@ -1113,7 +1113,13 @@ func (p *Parser) evaluateVarDefinition(ctx context) (Statement, error) {
 		if global {
 			storedName = buildPrefixedName(prefix, name)
 		}
-		variables = append(variables, NewVariable(storedName, specifiedType, global, isPublic(name)))
+		variableType := specifiedType
+
+		// A variable which already exists keeps its type.
+		if exists && specifiedType.DataType() == DATA_TYPE_UNKNOWN {
+			variableType = variableValueType
+		}
+		variables = append(variables, NewVariable(storedName, variableType, global, isPublic(name)))
 	}
 	values := []Expression{}
 
